@@ -53,6 +53,10 @@ CHECKS = {
          "For every generated (format, value) pair the text produced by format() is parsed back with parse_from_str / parse_and_remainder of the matching type and must equal the value truncated to what the format prints (minutes, seconds, 3/6/9 fraction digits; leap second kept iff seconds are printed); letter case of names and am/pm is flipped and white space widened at random. %#z is exercised read-only, %::z/%:::z/%Z print-only (no panic).",
          "Trusted base: the format family generator (harness/src/props/c13.rs) only emits formats whose fields determine the value (separators between variable-width numbers, no letters in separators); the expected precision comes from harness/src/refmodel/strftime.rs's tokenizer.",
          "DESIGN.md section 3 C13"),
+ "C14": ("exhaustive enumeration of all 16,384 subsets of the 14 date fields for a list of dates + proptest over subsets of all 21 fields derived from a real value (incl. range-end values), with 1-3 fields corrupted or drawn independently; soundness/completeness/error-class oracle from R-cal field derivation",
+         "Setters must accept exactly the documented ranges (and equal-value idempotence); every Ok result of to_naive_date, to_naive_time, to_naive_datetime_with_offset, to_datetime and to_datetime_with_timezone must agree with every supplied field (second 60 <-> leap second, timestamp equal or +1 on a leap second); uncorrupted, determinate, sufficient sets must resolve to exactly the value, uncorrupted insufficient sets must give NOT_ENOUGH, sufficient contradictory sets IMPOSSIBLE or OUT_OF_RANGE; nothing may panic.",
+         "Trusted base: field derivation and sufficiency rules in harness/src/props/c14.rs (from the documented list of sufficient combinations) and R-cal. Not judged (statement silent): century/two-digit fields on negative years, indeterminate year groups, a leap-second value without its second field, a timestamp with a missing non-zero second.",
+         "DESIGN.md section 3 C14"),
  "C17": ("proptest over stamps inside/outside the i64-nanosecond window, log-uniform/tie-making/invalid spans, offsets and digit counts, differential against floor/ceil arithmetic on i128 wall-clock stamps",
          "duration_trunc/round/round_up on NaiveDateTime and DateTime<FixedOffset> must return exactly floor/ceil/nearest-ties-up multiples of the span on the wall-clock stamp with the offset kept, be idempotent while the result stays inside the window, and report DurationExceedsLimit / TimestampExceedsLimit exactly for the three stated causes, never panicking (incl. headroom wall clocks); round_subsecs/trunc_subsecs on NaiveTime, NaiveDateTime and DateTime for all digit counts with carry. Leap-second operands: no panic, valid values, sub-second idempotence only.",
          "Trusted base: i128 div_euclid arithmetic (harness/src/props/c17.rs).",
